@@ -141,6 +141,16 @@ func (c *Ctx) Eval(sig string) {
 	c.mu.Unlock()
 }
 
+// Sig registers a feature signature observed in a judged execution without
+// counting another evaluation.
+func (c *Ctx) Sig(sig string) {
+	c.mu.Lock()
+	if sig != "" {
+		c.sigs[sig]++
+	}
+	c.mu.Unlock()
+}
+
 // EvalN records n judged executions under one signature.
 func (c *Ctx) EvalN(sig string, n int) {
 	c.mu.Lock()
